@@ -357,7 +357,9 @@ func (in *Interp) external(act *activation, b *ssa.BasicBlock, site token.Pos, n
 	switch short {
 	// ---- constraint-emitting API methods
 	case "frontend.API.AssertIsEqual":
-		in.emit(act, b, &Rec{Kind: "eq", Site: site, Args: args})
+		for _, e := range eqSplit(args, 0) {
+			in.emit(act, b, &Rec{Kind: "eq", Site: site, Args: eqNormalise(e)})
+		}
 		return &Val{}
 	case "frontend.API.AssertIsDifferent":
 		in.emit(act, b, &Rec{Kind: "neq", Site: site, Args: args})
@@ -816,4 +818,86 @@ func (in *Interp) PathKey(site token.Pos) string {
 	}
 	fmt.Fprintf(&sb, "%d", site)
 	return sb.String()
+}
+
+// eqNormalise rewrites the flag idioms of an equality into the equality itself:
+//
+//	AssertIsEqual(IsZero(Sub(x, y)), 1)          ≡  x == y
+//	AssertIsEqual(Sub(1, IsZero(Sub(x, y))), 0)  ≡  x == y
+//	AssertIsEqual(Sub(x, y), 0)                  ≡  x == y
+//
+// so that a gadget split into "compute a mismatch flag" + "assert the flag" is seen like the direct assertion.
+func eqNormalise(args []*Val) []*Val {
+	if len(args) != 2 {
+		return args
+	}
+	isK := func(v *Val, k int64) bool {
+		if v == nil || v.K == nil {
+			return false
+		}
+		c := constOf(v)
+		return c != nil && c.IsInt64() && c.Int64() == k
+	}
+	opArgs := func(v *Val, op string, n int) []*Val {
+		if v == nil || v.Ex == nil || v.Ex.Op != op || len(v.Ex.Args) < n {
+			return nil
+		}
+		return v.Ex.Args
+	}
+	diff := func(v *Val) []*Val {
+		if a := opArgs(v, "Sub", 2); a != nil && len(a) >= 2 {
+			// Sub carries a trailing variadic marker in some shapes: take the first two operands
+			return []*Val{a[0], a[1]}
+		}
+		return nil
+	}
+	for _, pair := range [][2]*Val{{args[0], args[1]}, {args[1], args[0]}} {
+		a, k := pair[0], pair[1]
+		if isK(k, 1) {
+			if z := opArgs(a, "IsZero", 1); z != nil {
+				if d := diff(z[0]); d != nil {
+					return d
+				}
+			}
+		}
+		if isK(k, 0) {
+			if sa := opArgs(a, "Sub", 2); sa != nil && isK(sa[0], 1) {
+				if z := opArgs(sa[1], "IsZero", 1); z != nil {
+					if d := diff(z[0]); d != nil {
+						return d
+					}
+				}
+			}
+		}
+	}
+	return args
+}
+
+// eqSplit: an asserted conjunction is several assertions — AssertIsEqual(Or(a, b), 0) ≡ a == 0 ∧ b == 0 and
+// AssertIsEqual(And(a, b), 1) ≡ a == 1 ∧ b == 1 (straight-line trees only; a flag accumulated across a loop is left
+// as it is)
+func eqSplit(args []*Val, depth int) [][]*Val {
+	if len(args) != 2 || depth > 4 {
+		return [][]*Val{args}
+	}
+	isK := func(v *Val, k int64) bool {
+		if v == nil || v.K == nil {
+			return false
+		}
+		c := constOf(v)
+		return c != nil && c.IsInt64() && c.Int64() == k
+	}
+	for _, pair := range [][2]*Val{{args[0], args[1]}, {args[1], args[0]}} {
+		a, k := pair[0], pair[1]
+		if a == nil || a.Ex == nil || len(a.Ex.Args) < 2 {
+			continue
+		}
+		if (a.Ex.Op == "Or" && isK(k, 0)) || (a.Ex.Op == "And" && isK(k, 1)) {
+			var out [][]*Val
+			out = append(out, eqSplit([]*Val{a.Ex.Args[0], k}, depth+1)...)
+			out = append(out, eqSplit([]*Val{a.Ex.Args[1], k}, depth+1)...)
+			return out
+		}
+	}
+	return [][]*Val{args}
 }
